@@ -187,8 +187,12 @@ fn observe_state(st: &State<U, E>, vars: &[T]) -> Vec<String> {
 fn run_real(g: &G, mode_dfs: bool, limit: usize) -> Vec<Vec<String>> {
     let vars: Vec<T> = vec![LTerm::var("x0"), LTerm::var("x1"), LTerm::var("x2")];
     let goal: Goal<U, E> = if mode_dfs {
-        let d = build_dfs(g, &vars);
-        let body: Vec<DFSGoal<U, E>> = vec![d];
+        // a top-level conjunction in construction form 2 is handed to `dfs` as ONE clause with several goals
+        // (`dfs { [g1, g2, ..] }`), every other goal as one clause with one goal
+        let body: Vec<DFSGoal<U, E>> = match g {
+            G::Conj(2, gs) => gs.iter().map(|x| build_dfs(x, &vars)).collect(),
+            _ => vec![build_dfs(g, &vars)],
+        };
         let refs: Vec<&[DFSGoal<U, E>]> = vec![&body[..]];
         dfs::<U, E, Goal<U, E>>(OperatorParam::new(&refs)).cast_into()
     } else { build_bfs(g, &vars) };
